@@ -19,3 +19,6 @@ claim("C09", "property-based testing (Hypothesis); Bayes identity against numpy 
 claim("C10", "property-based testing (Hypothesis) against an independent numpy oracle; known-finding matcher for the Dx/Dy constant",
       "set_y factors for all classes, Dx!=Dy, broadcast and paired observations are evaluated against ln N(y_i;Mx_n+b,S); well-formedness (R, shapes, slice, product) and the posterior from prior*product() against numpy. The listed finding KF-SETY-NORM is recognised only by its exact constant k(Dy-Dx)/2 ln 2pi.",
       _NOTE, "DESIGN.md §2 C10")
+claim("C03", "property-based testing (Hypothesis); three independent oracles (Isserlis tensors, Gauss-Hermite, exact integer mode)",
+      "All 12 integration keys x coefficient modes (shared / per-component / mixed / omitted matrix or vector) x measure kinds x cache states: integrate() is compared with the mass times Isserlis moment tensors contracted element-wise from the integrand's definition, with 3-node tensor Gauss-Hermite (D<=4, exact for degree<=5), and bit-exactly in integer mode.",
+      _NOTE, "DESIGN.md §2 C03")
